@@ -55,6 +55,7 @@ int main(int argc, char **argv)
     if(c == "synth") return comp_synth();
     if(c == "audio") return comp_audio();
     if(c == "api") return comp_api();
+    if(c == "iso") return comp_iso();
     fprintf(stderr, "unknown component %s\n", c.c_str());
     return 2;
 }
